@@ -177,6 +177,9 @@ class Validator(object):
                         # we raise an exception here?
                         pass
                     else:
+                        if ref[0] == 'choice' and not children and element_children & valid_children:
+                            # one alternative of a choice has been taken: the others are not missing
+                            continue
                         _check_repetitions(el, children, cardinality, child_name, errs)
                         # calls validation for every children
                         for c in children:
